@@ -517,7 +517,8 @@ PROPS['C12'] = dict(
              quick=100000, thorough=3000000, leak_check=True,
              require=['c12.lodging_checks', 'c12.answered', 'c12.replumb',
                       'c12.unregister', 'c12.chains_with_queue',
-                      'c12.renewed_in_callback']),
+                      'c12.renewed_in_callback', 'c12.output_owned_by_the_pipeline',
+                      'c12.bursts_overflowing_the_oob_queue']),
     ],
 )
 
